@@ -42,6 +42,17 @@ func main() {
 		os.Exit(cmdCheck(os.Args[2:]))
 	case "replay":
 		os.Exit(cmdReplay(os.Args[2:]))
+	case "warm":
+		b, err := build.Build(repoDir(), filepath.Join(verifDir(), "sim"))
+		if b != nil {
+			os.RemoveAll(b.Scratch)
+		}
+		if err != nil {
+			fmt.Fprintln(os.Stderr, "BUILD TROUBLE:", err)
+			os.Exit(2)
+		}
+		fmt.Println("warm: worker builds")
+		os.Exit(0)
 	case "selftest":
 		os.Exit(cmdSelftest(os.Args[2:]))
 	default:
@@ -73,7 +84,11 @@ func cmdJob(args []string) int {
 	job := map[string]interface{}{"id": 1, "prop": prop, "profile": profile, "seed": seed, "want_log": true}
 	jb, _ := json.Marshal(job)
 	cmd := exec.Command(b.Worker, "-test.run", "^TestVerifWorker$", "-test.timeout", "0")
-	cmd.Env = append(os.Environ(), "VERIF_WORKER=1", "GOMAXPROCS=1")
+	gm := os.Getenv("VERIF_GOMAXPROCS")
+	if gm == "" {
+		gm = "1"
+	}
+	cmd.Env = append(os.Environ(), "VERIF_WORKER=1", "GOMAXPROCS="+gm)
 	cmd.Stdin = strings.NewReader(string(jb) + "\n")
 	cmd.Stderr = os.Stderr
 	out, _ := cmd.StdoutPipe()
